@@ -156,3 +156,13 @@ impl Combinable<OrderedFloat<f64>> for OrderedFloat<f64> {
         }
     }
 }
+
+#[cfg(feature = "verif")]
+pub fn verif_merge_aggregate_i64(
+    ops: &[MergeOp],
+    left: &[i64],
+    right: &[i64],
+    aggregator: Aggregator,
+) -> Result<Vec<i64>, QueryError> {
+    merge_aggregate::<i64>(ops, left, right, aggregator)
+}
